@@ -106,7 +106,8 @@ def run_gaussian(key):
             want[idx] = R.diagonal_gaussian_logpdf(ys[idx], means[idx], covs[idx])
         else:
             want[idx] = R.spherical_gaussian_logpdf(ys[idx], means[idx], covs[idx])
-    bad = tol.mismatch(got, want, tol.TIGHT, scale=max(cond * 1e-3, 1.0) if fam == 'full' else 1.0,
+    # the implementation is accurate to about 1e-16 * cond; 1e-14 * cond leaves two digits of margin
+    bad = tol.mismatch(got, want, tol.TIGHT, scale=max(cond * 1e-5, 1.0) if fam == 'full' else 1.0,
                        what=f'{cls.__name__}.log_pdf')
     if bad:
         return viol(bad, got, want)
@@ -145,7 +146,7 @@ def _sph_points(seed, D, mode, tag, complex_):
     # orthogonal to mode
     g = A.cnormal(r, (D,)) if complex_ else r.standard_normal(D)
     orth = g - mode * np.vdot(mode, g)
-    orth = orth / np.linalg.norm(orth)
+    orth = orth / np.linalg.norm(orth) if D > 1 else -mode     # D = 1: the other point of the sphere
     basis = np.eye(D)[0].astype(mode.dtype)
     gen = A.cnormal(r, (D,)) if complex_ else r.standard_normal(D)
     gen = gen / np.linalg.norm(gen)
@@ -524,7 +525,7 @@ def subchecks(tier, seed):
     subs.append(Sub('complex_gaussian', ('D', 'cov', 'stack', 'layout', 'seed'), cg_cases, run_cgauss))
 
     def vmf_cases():
-        for D in range(2, 9):
+        for D in range(1, 9):     # D = 1: the two-point sphere {-1, +1}
             for k in KAPPAS:
                 for mk in ('basis', 'generic'):
                     for stack in STACKS:
